@@ -68,6 +68,8 @@ class Gen:
                 options.append(("optional", 0, 1))
             if "zero" in kinds:
                 options.append(("zero", 0, 0))
+            if "star" in kinds and rng.random() < 0.5:
+                options.append(("star1", rng.randint(0, 1), -1))      # a one-member group [0..*] / [1..*]
         else:
             if "alternative" in kinds:
                 options.append(("alternative", 1, 1))
@@ -376,11 +378,17 @@ def nest_models(ops=LOGICAL, chunk=1):
         yield free_model(buf)
 
 
-def case_twin_models(ops=("REQUIRES", "EXCLUDES", "IMPLIES", "OR", "AND"), names=("Xa", "xa", "Yb", "yb")):
+def case_twin_models(ops=("REQUIRES", "EXCLUDES", "IMPLIES", "OR", "AND"), names=("Xa", "xa", "Yb", "yb"),
+                     same_name=True):
     """same-shaped constraints over names differing only in letter case; the same constraint twice;
-    one constraint naming two case twins"""
+    one constraint naming two case twins; different constraints carrying one and the same name (a constraint's
+    name is a label, not a key: same_name=False for the one format that keys its constraints by name)"""
     a, a2, b, b2 = names
     for o in ops:
+        if same_name:
+            m = free_model([OP(o, T(a), T(b)), OP(o, T(b), T(b2)), OP(o, T(b2), T(a))], names)
+            m["ctcs"] = [("rule", c) for _n, c in m["ctcs"]]
+            yield m
         yield free_model([OP(o, T(a), T(b)), OP(o, T(a2), T(b2))], names)
         yield free_model([OP(o, T(a), T(b)), OP(o, T(a), T(b))], names)
         yield free_model([OP(o, T(a), T(a2))], names)
